@@ -23,7 +23,7 @@ ASSUMPTIONS = [
 ]
 BOUNDS = {"quick": {"symbolic-coefficient shapes": "<=2 terms x <=3 vars", "concrete-coefficient shapes": "<=4 terms x <=4 vars"}, "thorough": {"symbolic-coefficient shapes": "<=3 terms x <=3 vars", "concrete-coefficient shapes": "<=5 terms x <=5 vars"}}
 OPTS = {"quick": {"tier_budget_s": 200, "max_paths": 4000, "job_budget_s": 60, "witness_rate": 0.5}, "thorough": {"tier_budget_s": 1800, "max_paths": 30000, "job_budget_s": 400}}
-REACH = {"quick": ["True", "False", "VE", "empty:True", "empty:False", "consistency", "symbolic-coefficients"]}
+REACH = {"quick": ["True", "False", "VE", "empty:True", "empty:False", "consistency", "symbolic-coefficients", "empty-sequence"]}
 
 
 def jobs(tier, seed):
@@ -59,6 +59,11 @@ def jobs(tier, seed):
         if rng.random() < 0.5:
             terms.append({k: -v for k, v in terms[0].items()})
         out.append({"kind": "empty", "terms": terms})
+    # emptiness asked in sequence for two lists that agree in their first four significant digits (one feasible,
+    # one infeasible by 2e-3): the answers must not depend on what was asked before
+    for big in (1000, 2048):
+        for order in ((0, 1), (1, 0)):
+            out.append({"kind": "empty-sequence", "terms": [{"x": 1, "y": 1}, {"x": -1, "y": -1}], "pairs": [[big, -big], [big, -big - 2 ** -9]], "order": list(order)})
     # consistency with refinement
     n = 80 if tier == "quick" else 2500
     for i in range(n):
@@ -118,6 +123,16 @@ def run(ctx, job):
         ans = bool(ans)
         ctx.obligation("membership-answer-exact", z3.Not(ref) if ans else ref)
         return {"cls": str(ans), "res": {"cmp": ans}}
+    if kind == "empty-sequence":
+        ctx.tag("empty-sequence")
+        answers = []
+        for idx in job["order"]:
+            conc = {f"c{i}": v for i, v in enumerate(job["pairs"][idx])}
+            tl = B.mk_tl(B.Pinned(ctx, conc), job["terms"], "c")
+            ans = bool(tl.is_empty())
+            answers.append(ans)
+            ctx.expect("emptiness-independent-of-earlier-queries", ans == (idx == 1), info=f"list {idx} asked in order {job['order']}: is_empty={ans}")
+        return {"cls": "empty-sequence", "res": {"cmp": answers}}
     if kind == "empty":
         tl = B.mk_tl(ctx, job["terms"], "c")
         try:
